@@ -42,7 +42,8 @@ static void usage(int status) {
 
 static bool take_arg(char *arg) {
   char *x[] = {
-    "-o", "-I", "-idirafter", "-include", "-x", "-MF", "-MT", "-Xlinker",
+    "-o", "-I", "-idirafter", "-include", "-x", "-MF", "-MT", "-MQ",
+    "-Xlinker", "-D", "-U", "-L", "-cc1-input", "-cc1-output",
   };
 
   for (int i = 0; i < sizeof(x) / sizeof(*x); i++)
@@ -170,6 +171,11 @@ static void parse_args(int argc, char **argv) {
 
     if (!strcmp(argv[i], "-E")) {
       opt_E = true;
+      continue;
+    }
+
+    if (!strcmp(argv[i], "-I")) {
+      strarray_push(&include_paths, argv[++i]);
       continue;
     }
 
